@@ -968,15 +968,19 @@ class NumberOrderedForm(Operator):
                 else:
                     to_pair = min(-op_power, max(orig_power, 0))
                     # Create the new number operators from all pairs
+                    new_numbers = One
                     if op_index < self._n_bosons:  # Bosons
                         new_numbers = sympy.Mul(
                             *[n_operator + sympy.S(i) for i in range(1, to_pair + 1)]
                         )
-                        coeff = coeff * new_numbers
                     if new_power > 0:
                         # Bring all unmatched annihilation operators to the right
-                        coeff = coeff.xreplace({n_operator: n_operator + new_power})
+                        # through the new number operators.
+                        coeff = coeff * new_numbers.xreplace(
+                            {n_operator: n_operator + new_power}
+                        )
                     else:
+                        coeff = coeff * new_numbers
                         # Bring all unmatched creation operators to the left
                         coeff = coeff.xreplace(
                             {n_operator: n_operator + sympy.S(-op_power - to_pair)}
